@@ -232,9 +232,12 @@ def _run_property(mod, mod_name, prop, tier, seed, timer, only):
 
     errors = [r for r in results if r["error"]]
     if errors:
-        for r in errors[:3]:
+        for r in errors[:1]:
+            lines = r["error"].splitlines()
+            if len(lines) > 45:
+                lines = lines[:30] + ["   ... (%d lines omitted) ..." % (len(lines) - 40)] + lines[-10:]
             sys.stderr.write("--- harness error in %s shard %d ---\n%s\n"
-                             % (r["sub"], r["shard"], r["error"]))
+                             % (r["sub"], r["shard"], "\n".join(l[:300] for l in lines)))
         env.harness_exit("%d shard(s) of %s failed outside the oracle" % (len(errors), prop))
 
     per_sub = {}
